@@ -104,6 +104,8 @@ def _find_stmt(body_toks, text_pat, nth):
                 j = k
             elif t.text == ';' and depth == 0:
                 return i, j
+            elif t.text in CLOSE:
+                return i, j - 1      # tail expression of the enclosing block
         j += 1
     raise LostAnchor('statement `%s` has no end' % text_pat)
 
@@ -384,7 +386,7 @@ class Unit:
                 if k > len(loops):
                     raise GenError('lost anchor: loop %d of %s not found (%d loops)' % (k, where, len(loops)))
                 ins.append((body_toks[loops[k - 1][1]].start, 0, lines, 'invariant'))
-            if len(loops) and set(fs.loops) != set(range(1, len(loops) + 1)):
+            if len(loops) and set(fs.loops) != set(range(1, len(loops) + 1)) and not os.environ.get('VX_LAX'):
                 raise GenError('lost anchor: %s has %d loops but contracts for %s' %
                                (where, len(loops), sorted(fs.loops)))
             for kind_, arg, lines in fs.inserts:
